@@ -101,7 +101,8 @@ def _baseline_ok(repo):
     """the pinned baseline (79 stable tests) must still pass in the scratch copy"""
     with open(BASELINE) as f:
         base = json.load(f)
-    want = set(base["stable_pass"])
+    norm = lambda t: t[len("testing."):] if t.startswith("testing.") else t
+    want = set(norm(t) for t in base["stable_pass"])
     junit = os.path.join(repo, ".verif-junit.xml")
     subprocess.run(["/venv/bin/python", "-m", "pytest", "-q", "-p", "no:cacheprovider",
                     "--continue-on-collection-errors", "--junitxml=" + junit, "testing"],
@@ -112,7 +113,7 @@ def _baseline_ok(repo):
     try:
         for tc in ET.parse(junit).getroot().iter("testcase"):
             if not any(ch.tag in ("failure", "error", "skipped") for ch in tc):
-                passed.add("%s::%s" % (tc.get("classname"), tc.get("name")))
+                passed.add(norm("%s::%s" % (tc.get("classname"), tc.get("name"))))
     finally:
         if os.path.exists(junit):
             os.unlink(junit)
@@ -191,6 +192,15 @@ def sensitivity(argv):
                 rec["baseline_passes"] = ok
                 if not ok:
                     rec["baseline_missing"] = missing[:5]
+            demo = os.path.join(os.path.dirname(p), "demo.py")
+            if p.endswith("patch.diff") and os.path.exists(demo):
+                env = {k: v for k, v in os.environ.items() if k != "PYTHONPATH"}
+                c = subprocess.run(["/venv/bin/python", demo, "/repo"], cwd="/tmp", capture_output=True,
+                                   text=True, timeout=600, env=env)
+                m_ = subprocess.run(["/venv/bin/python", demo, dst], cwd="/tmp", capture_output=True,
+                                    text=True, timeout=600, env=env)
+                rec["demo_passes_on_unchanged_tree"] = (c.returncode == 0)
+                rec["demo_fails_on_mutant"] = (m_.returncode != 0)
             for prop in props:
                 t0 = time.time()
                 cmd = [CHECK, prop, args.tier, "--repo", dst, "--no-evidence"]
@@ -221,8 +231,9 @@ def sensitivity(argv):
         finally:
             _remove_scratch(d, dst)
         results.append(rec)
-        print("%-44s %-4s baseline=%s caught_by=%s missed_by=%s" % (
+        print("%-44s %-4s baseline=%s demo(clean-pass,mutant-fail)=%s caught_by=%s missed_by=%s" % (
             name, meta["property"], rec.get("baseline_passes", "n/a"),
+            (rec.get("demo_passes_on_unchanged_tree"), rec.get("demo_fails_on_mutant")),
             [(e["property"], e.get("first_class"), e.get("minimised_ops"),
               e.get("replay_reproduces_on_mutant"), e.get("replay_clean_on_unchanged_tree"))
              for e in rec["caught_by"]],
